@@ -70,7 +70,7 @@ def config_probe(calls, direction, config, expects=None):
 
 # ---- a whole unit's oracle re-run inside a configured interpreter ---------------------------------------------------------
 
-def unit_under_config(prop, unit_name, n_cases=6, exclude=(), doc=None, quick=16, thorough=300):
+def unit_under_config(prop, unit_name, n_cases=6, exclude=(), doc=None, quick=16, thorough=300, closed_stdout=False):
     """Build a Unit that draws n_cases cases of an existing unit plus a configuration, runs that unit's check() on them in
     a fresh interpreter under the configuration, and then once more for every value of every environment variable the
     repository code was seen reading.  `exclude`: configuration keys forced to None for this property."""
@@ -88,6 +88,8 @@ def unit_under_config(prop, unit_name, n_cases=6, exclude=(), doc=None, quick=16
                 cfg[k] = None
             if draw(st.integers(0, 3)) == 0 and "LC_ALL" not in exclude:
                 cfg = configrun.with_ascii_locale(cfg)
+            if closed_stdout and draw(st.integers(0, 2)) == 0:
+                cfg["stdout"] = "closed"       # a daemonised process: only for code that has no business printing
             return {"cases": [draw(base.strategy()) for _ in range(draw(st.integers(2, n_cases)))], "config": cfg}
         return draw_case()
 
